@@ -3,6 +3,7 @@
 package resource
 
 import (
+	"encoding/base64"
 	"time"
 
 	"google.golang.org/grpc/codes"
@@ -197,6 +198,7 @@ var vtIDs = []string{"id1", "id2", "id3"}
 
 type vtColl struct {
 	c      *Collection
+	direct bool // the collection has an id interceptor: look at the stored map directly
 	ids    []string
 	bodies []*T // deep copies of what was stored
 }
@@ -231,8 +233,21 @@ func (s *vtColl) find(id string) (*T, int) {
 
 // vtCheckState: Get of every model id returns the model body, and List is the model sorted by id.
 func (s *vtColl) check(label string) {
+	if s.direct {
+		vt.Assert(len(s.c.byId) == len(s.ids), label+":model-size")
+	}
 	for i, id := range s.ids {
-		got, ok := s.c.Get(id)
+		var got proto.Message
+		var ok bool
+		if s.direct {
+			var it *item
+			it, ok = s.c.byId[id]
+			if ok {
+				got = it.body
+			}
+		} else {
+			got, ok = s.c.Get(id)
+		}
 		vt.Assert(ok, label+":model-id-present")
 		if ok {
 			vt.Assert(proto.Equal(got, s.bodies[i]), label+":model-body-stored")
@@ -263,9 +278,37 @@ func (s *vtColl) checkList(label string) {
 
 // One arbitrary Get / List / Add / Update / Delete with an arbitrary subset of options on an arbitrary collection.
 func VT_C01_CollectionStep() {
-	s := vtNewColl()
+	vtCollectionStep(vtNewColl(), nil)
+}
+
+// vtInterceptor is an arbitrary id mapping that moves at most two ids (k1 -> v1, k2 -> v2, identity elsewhere):
+// not necessarily idempotent, not necessarily injective.
+type vtInterceptor struct{ k1, v1, k2, v2 string }
+
+func vtNewInterceptor() *vtInterceptor {
+	return &vtInterceptor{vt.StrOrd("ic.k1"), vt.StrOrd("ic.v1"), vt.StrOrd("ic.k2"), vt.StrOrd("ic.v2")}
+}
+
+func (ic *vtInterceptor) apply(id string) string {
+	return vt.IteStr(id == ic.k1, ic.v1, vt.IteStr(id == ic.k2, ic.v2, id))
+}
+
+// The same step on a collection with an arbitrary id interceptor I: every call behaves as the call on the plain map
+// with key I(id) (applied exactly once).
+func VT_C01_IDInterceptor() {
+	ic := vtNewInterceptor()
+	s := vtNewColl(WithIDInterceptor(ic.apply))
+	s.direct = true
+	vtCollectionStep(s, ic)
+}
+
+func vtCollectionStep(s *vtColl, ic *vtInterceptor) {
 	id := vt.StrOrd("id")
-	cur, at := s.find(id)
+	key := id
+	if ic != nil {
+		key = ic.apply(id)
+	}
+	cur, at := s.find(key)
 	op := vt.Choose("op", 4)
 	switch op {
 	case 0: // Get
@@ -280,7 +323,9 @@ func VT_C01_CollectionStep() {
 		vt.Reach("get")
 	case 1, 2: // Update / Add
 		w := &vtWrite{}
-		vtWriteOpts(w)
+		if ic == nil {
+			vtWriteOpts(w)
+		}
 		created := 0
 		w.opts = append(w.opts, WithCreatedCallback(func() { created++ }))
 		createIfAbsent, expectAbsent := false, false
@@ -333,7 +378,7 @@ func VT_C01_CollectionStep() {
 		vt.Assert(proto.Equal(got, want), "write-returns-reference-value")
 		if cur == nil {
 			vt.Assert(created == 1, "created-callback-once-on-create")
-			s.ids = append(s.ids, id)
+			s.ids = append(s.ids, key)
 			s.bodies = append(s.bodies, want)
 		} else {
 			vt.Assert(created == 0, "created-callback-not-on-update")
@@ -380,6 +425,8 @@ func VT_C01_CollectionStep() {
 			s.bodies = append(append([]*T(nil), s.bodies[:at]...), s.bodies[at+1:]...)
 			_, ok := s.c.Get(id)
 			vt.Assert(!ok, "deleted-id-is-gone")
+			_, ok = s.c.byId[key]
+			vt.Assert(!ok, "deleted-key-is-gone")
 			s.check("after-delete")
 		}
 		vt.Reach("delete")
@@ -388,7 +435,49 @@ func VT_C01_CollectionStep() {
 
 // Generated ids: non-empty, unused, reported exactly once, usable afterwards.
 func VT_C01_GeneratedID() {
-	s := vtNewColl()
+	vtGeneratedID(vtNewColl(), nil)
+}
+
+// vtRng is a random source whose bytes are arbitrary.
+type vtRng struct{}
+
+func (vtRng) Read(p []byte) (int, error) {
+	for i := range p {
+		p[i] = vt.Uint8("rng")
+	}
+	return len(p), nil
+}
+
+// Generated ids on a collection with an idempotent id interceptor (a canonicalisation such as lower-casing, here:
+// one arbitrary first-try candidate k is mapped to an arbitrary canonical id v, everything else is canonical already):
+// the reported id is unused and usable for later Get / Update / Delete.
+// Bounds: the collection holds at most one item; only a first-try candidate (6 random bytes) can be non-canonical.
+func VT_C01_GeneratedIDIntercepted() {
+	var kb [6]byte
+	for i := range kb {
+		kb[i] = vt.Uint8("ic.k")
+	}
+	k := base64.RawURLEncoding.EncodeToString(kb[:])
+	v := vt.StrOrd("ic.v")
+	vt.Assume(v != "")
+	vt.Assume(v < "0001000000000000") // below every generated candidate: v is canonical
+	ic := &vtInterceptor{k1: k, v1: v, k2: k, v2: v}
+	s := &vtColl{direct: true}
+	opts := []Option{WithClock(vtClock{}), WithRNG(vtRng{}), WithIDInterceptor(ic.apply)}
+	if vt.Choose("items", 2) == 1 {
+		id := vt.StrOrd("id1")
+		vt.Assume(id != "")
+		vt.Assume(id < "0001000000000000")
+		b := &T{DefaultInt32: vt.Int32("id1.body.i32")}
+		s.ids = append(s.ids, id)
+		s.bodies = append(s.bodies, proto.Clone(b).(*T))
+		opts = append(opts, WithInitialRecord(id, b))
+	}
+	s.c = NewCollection(opts...)
+	vtGeneratedID(s, ic)
+}
+
+func vtGeneratedID(s *vtColl, ic *vtInterceptor) {
 	var reported []string
 	written := vtT("written")
 	got, err := s.c.Add("", written, WithGenIDIfAbsent(), WithIDCallback(func(id string) { reported = append(reported, id) }))
@@ -406,7 +495,11 @@ func VT_C01_GeneratedID() {
 	}
 	gid := reported[0]
 	vt.Assert(gid != "", "generated-id-non-empty")
-	prev, _ := s.find(gid)
+	gkey := gid
+	if ic != nil {
+		gkey = ic.apply(gid)
+	}
+	prev, _ := s.find(gkey)
 	vt.Assert(prev == nil, "generated-id-was-unused")
 	vt.Assert(proto.Equal(got, written), "generated-add-returns-body")
 	g2, ok := s.c.Get(gid)
